@@ -238,6 +238,36 @@ pub fn oracle(f: u32, a: &Args, out: &Args) -> Option<(&'static str, String)> {
             }
             None
         }
+        405 => {
+            // C04: a well-formed close capsule yields exactly (code, reason); a malformed one is an
+            // error, never a close.  Read here independently: type, length, 4-byte code, UTF-8 reason <= 1024.
+            let b = a2b(&a[0]);
+            let vi = |pos: &mut usize| -> Option<u64> {
+                let first = *b.get(*pos)?;
+                let n = 1usize << (first >> 6);
+                if *pos + n > b.len() { return None; }
+                let mut v = (first & 0x3f) as u64;
+                for i in 1..n { v = v << 8 | b[*pos + i] as u64; }
+                *pos += n;
+                Some(v)
+            };
+            let mut pos = 0;
+            if let (Some(0x2843), Some(l)) = (vi(&mut pos), vi(&mut pos)) {
+                if l as usize == b.len() - pos {
+                    let body = &b[pos..];
+                    let good = body.len() >= 4 && body.len() <= 4 + 1024 && std::str::from_utf8(&body[4..]).is_ok();
+                    if good {
+                        let code = u32::from_be_bytes([body[0], body[1], body[2], body[3]]) as u64;
+                        if out[0] != vec![1, code] || out.get(1).map(|r| a2b(r)) != Some(body[4..].to_vec()) {
+                            return Some(("C04", format!("close capsule ({}, {:?}) read as {:?}", code, String::from_utf8_lossy(&body[4..]), out)));
+                        }
+                    } else if out[0][0] == 1 {
+                        return Some(("C04", format!("malformed close capsule accepted as a close: {:?}", out)));
+                    }
+                }
+            }
+            None
+        }
         408 => {
             if out[0][0] == 1 && !(100..=599).contains(&out[0][1]) {
                 return Some(("C18", format!("status string parsed to out-of-range value {}", out[0][1])));
@@ -407,6 +437,14 @@ pub fn generate(rng: &mut Rng, thorough: bool) -> Vec<Case> {
         body.extend(&r);
         cs.push(Case::new(405, vec![b2a(&mk(0x2843, body.len() as u64, &body))], "close-reason-utf8"));
         cs.push(Case::new(406, vec![b2a(&r)], "utf8"));
+    }
+    // reasons cut inside a multi-byte character, invalid bytes in the middle, lone continuation bytes
+    for r in [&b"caf\xC3"[..], b"\xC3", b"ab\xE2\x82", b"\xE2\x82", b"x\xF0\x9F\x98", b"\xF0\x9F", b"a\xFFb", b"ok\x80", b"\xED\xA0\x80", b"\xC0\xAF"] {
+        for code in [0u32, 9] {
+            let mut body = code.to_be_bytes().to_vec();
+            body.extend(r);
+            cs.push(Case::new(405, vec![b2a(&mk(0x2843, body.len() as u64, &body))], "close-reason-cut-character"));
+        }
     }
     for ty in [0u64, 1, 0x2842, 0x2844, 0x21, 0x40, MAXV] {
         cs.push(Case::new(405, vec![b2a(&mk(ty, 4, &[0, 0, 0, 1]))], "other-capsule-type"));
